@@ -11,6 +11,7 @@ import IdpyVerif.Driver.Subject
 import IdpyVerif.Driver.Claims
 import IdpyVerif.Driver.Resolve
 import IdpyVerif.Driver.FileStore
+import IdpyVerif.Driver.IdToken
 open Idpy
 
 structure DState where
@@ -31,6 +32,7 @@ def dispatch (st : DState) (fields : List String) : DState × String :=
   | "redir" :: args => (st, (Driver.Redirect.handle args).getD "bad-op")
   | "msg" :: args => (st, (Driver.Msg.handle args).getD "bad-op")
   | "cookie" :: args => (st, (Driver.C17.handle args).getD "bad-op")
+  | "idt" :: args => (st, (Driver.IdToken.handle args).getD "bad-op")
   | "ie" :: args => (st, (Driver.FileStore.ieLine args).getD "bad-op")
   | "fs" :: args =>
     let (f', out) := Driver.FileStore.stepLine st.fs args
